@@ -242,8 +242,8 @@ theorem step_measure_lt {nbVars : Nat} {dedup : Bool} {okR okX : SubP S → Int 
     · exact local_lt hw _ _ hfe rfl rfl (by simp [WSt.rank, WSt.afterR, WSt.afterX])
   | enqueue i n lb o hw =>
     refine close_lt hw _ _ rfl rfl (fun e he => ?_)
-    show cnt _ (s.crit.base.enqueue dedup n.ub o.cutset).fringe e ≤ _
-    rw [cnt_enqueue_of_ne (nbVars + 1) dedup n.ub o.cutset e (fun c hc => ?_)]
+    show cnt _ (s.crit.base.enqueue dedup o.cutset).fringe e ≤ _
+    rw [cnt_enqueue_of_ne (nbVars + 1) dedup o.cutset e (fun c hc => ?_)]
     · exact Nat.le_refl _
     · obtain ⟨h1, h2⟩ := hprog i n lb o (Or.inr hw) c hc
       unfold cdepth at he ⊢
